@@ -5,6 +5,9 @@ from vf.ref import bip39_ref as R
 from vf.runner import Acc, filler
 
 PROPERTY = "C10"
+CONCUR_FILES = ('bits/bips/bip39/__init__.py',)
+# (thread a, thread b), warm-up: indices into seq_ops() - the ordinary single-case checks run concurrently (vf/concur.py)
+CONCUR_SCEN = [((0, 3), ()), ((1, 1), (0,)), ((3, 4), (1,)), ((8, 9), ())]
 LEVEL = "exploration"
 RULE = ("bijection: for each of the five entropy lengths, entropies {zeros, ones, EVERY single-bit pattern, 01.., 80.., 8 fillers} "
         "-> word count, all words in list, to_entropy inverse, equals reference; EVERY byte length 0..40 other than the five must "
@@ -16,6 +19,7 @@ RULE = ("bijection: for each of the five entropy lengths, entropies {zeros, ones
 ASSUMPTIONS = ["vf/ref/bip39_ref.py (bit-string formulation, hand-rolled PBKDF2) validated on all 24 Trezor vectors incl. seed and xprv "
                "columns; the English word list file itself is shared input"]
 OBLIGATIONS = {
+    "concurrent_calls": "interleavings of two concurrent calls (single-case checks in two threads, cold and after warm-up calls)",
     "history_sequences": "operation sequences (non-initial process states) explored",
     "invalid_length_refused": "an entropy length other than 16/20/24/28/32 offered", "last_word_all_2048": "all 2048 last words tried on a phrase",
     "accepted_alternative_last_word": "a different last word that is also valid (other entropy bits) was offered",
@@ -154,6 +158,9 @@ CASES = {"entropy": chk_entropy, "phrase": chk_phrase, "seed": chk_seed, "fault"
 
 
 def run_case(kind, case):
+    if kind == "concurcase":
+        from vf import concur
+        return concur.replay_cases(run_case, PROPERTY, case, CONCUR_FILES)
     if kind == "seq":
         from vf import seqexplore
         return seqexplore.replay(run_case, case)
@@ -198,10 +205,17 @@ def jobs(tier, seed):
                 js.append({"name": f"position/{n}/{pos}", "part": "pos", "n": n, "pos": pos, "weight": 6})
     from vf.runner import seq_jobs
     js += seq_jobs(3, weight=3)
+    from vf.runner import concur_jobs
+    js += concur_jobs(len(CONCUR_SCEN))
     return js
 
 
 def run_job(job):
+    if job["part"] == "concurcase":
+        from vf.runner import run_concur_job
+        ops = seq_ops(dict(job, shard=[0, 1]))
+        scens = [{"threads": [ops[i] for i in th], "warm": [ops[i] for i in wm]} for th, wm in CONCUR_SCEN]
+        return run_concur_job(job, scens, run_case, PROPERTY, CONCUR_FILES)
     if job["part"] == "seq":
         from vf.runner import run_seq_job
         return run_seq_job(job, seq_ops(job), run_case)
